@@ -11,6 +11,7 @@
 #pragma once
 
 #include <arch/platform.h>
+#include <verif/rsv.h>
 
 #include <stdint.h>
 #include <time.h>
@@ -39,6 +40,10 @@ static inline timer_uint timer_value(timer_uint start);
 
 static inline timer_uint timer_new(void)
 {
+#ifdef ROOT_SIM_CORE_VERIF
+	if(rsv_clock_virtual())
+		return (timer_uint)rsv_clock_us();
+#endif
 	struct timeval tmptv;
 	gettimeofday(&tmptv, NULL);
 	return (timer_uint)tmptv.tv_sec * 1000000U + tmptv.tv_usec;
@@ -94,6 +99,10 @@ static inline timer_uint timer_value(timer_uint start)
 
 static inline timer_uint timer_hr_new(void)
 {
+#ifdef ROOT_SIM_CORE_VERIF
+	if(rsv_clock_virtual())
+		return (timer_uint)rsv_clock_hr();
+#endif
 	return __rdtsc();
 }
 
